@@ -616,7 +616,7 @@ int main(int argc, char **argv)
         alarm(0);
         if (RSKIP) { printf("SKIP\n"); break; }
         e = gd_error(D); lvl = D->recurse_level;
-        if (k == 0) { ret0 = RET; err0 = e; }
+        if (k == 0) { ret0 = RET; err0 = e; if (n > 1) printf("FIRST R %lld E %d\n", RET, e); }
         errl = e;
         if (e == GD_E_INTERNAL_ERROR) internal++;
         if (lvl > lvlmax) lvlmax = lvl;
